@@ -32,7 +32,7 @@ checks = {
    category="exploration", design_ref="DESIGN.md §3 C14",
    technique="exhaustive enumeration of (start,end) minute pairs x weekday/date filters x boundary instants through the real unexported schedule.activeForTime (in-package test injected by go test -overlay), compared with an independent integer interval model of the statement",
    text="Quick: a 13x13 boundary-minute grid x 11 weekday sets x 8 date lists x days holding week, month and year ends and a leap day x 15 instants per day (+-1 s and +-1 ns around every edge) x 4 time zones, plus every 7th start minute x all 1440 end minutes x single-weekday filters. Thorough: all 1440^2 pairs. Exhaustive within those grids.",
-   note="The model is the property statement computed with integer arithmetic on UTC seconds; date lists are well-formed."),
+   note="The model is the property statement computed with integer arithmetic on UTC seconds; date lists are well-formed; they include repeated dates and dates that do not exist (2024-02-30, 2023-12-32), which name no day."),
  "C18": dict(
    category="exploration", design_ref="DESIGN.md §3 C18",
    technique="exhaustive enumeration of request PDUs (all 256 function codes x all data strings up to length 4/6 over a boundary byte alphabet; structured requests around every protocol limit) x 7 register maps through the real PDU.ProcessRequest on the real Regs, against a reference Modbus server written from the specification tables; write-then-read pairs",
